@@ -138,3 +138,22 @@ Proof.
     specialize (Hg h _ [] eq_refl). cbn in Hg. destruct Hg as (_ & Hn & _). apply Hn, elem_of_pushed_all. exists q. by apply elem_of_pushed.
   - destruct e; cbn; try constructor; case_decide; try constructor; [by apply not_elem_of_nil|constructor].
 Qed.
+
+(* ---------- a decision procedure for [before], for the examples ---------- *)
+Fixpoint after (e : hevent) (h : list hevent) : option (list hevent) :=
+  match h with [] => None | x :: r => if decide (x = e) then Some r else after e r end.
+Definition before_b (e1 e2 : hevent) (h : list hevent) : bool :=
+  match after e1 h with Some r => bool_decide (e2 ∈ r) | None => false end.
+Lemma after_Some e h r : after e h = Some r -> exists h1, h = h1 ++ e :: r.
+Proof.
+  revert r. induction h as [|x h IH]; intros r; cbn; [done|]. case_decide.
+  - intros [= <-]. subst. by exists [].
+  - intros Hr. destruct (IH r Hr) as [h1 ->]. by exists (x :: h1).
+Qed.
+Lemma before_b_true e1 e2 h : before_b e1 e2 h = true -> before e1 e2 h.
+Proof.
+  unfold before_b. destruct (after e1 h) as [r|] eqn:E; [|done]. intros H%bool_decide_eq_true.
+  destruct (after_Some _ _ _ E) as [h1 ->]. apply elem_of_list_split in H as (h2 & h3 & ->). by exists h1, h2, h3.
+Qed.
+Lemma elem_of_b_true (e : hevent) (h : list hevent) : bool_decide (e ∈ h) = true -> e ∈ h.
+Proof. apply bool_decide_eq_true. Qed.
